@@ -405,7 +405,7 @@ unsafe fn dispose_general_node<T: RcObject>(
     counter.set(count + 1);
     if count % 128 == 0 {
         if let Some(local) = guard.local.as_ref() {
-            local.repin_without_collect();
+            local.repin_in_disposal();
         }
     }
 
